@@ -176,7 +176,7 @@ main(int argc, char** argv)
     }
   // ---- all pairs of types inside the first corpus (symmetry, hash, canonical type consistency)
   size_t n = all1.size();
-  size_t step = n > 400 ? n / 400 + 1 : 1;
+  size_t step = n > 150 ? n / 150 + 1 : 1;
   for (size_t i = 0; i < n; i += step)
     for (size_t j = i; j < n; j += step)
       check_type_pair(all1[i], all1[j], ctxt, get_pretty_representation(all1[i], true) + " <> " + get_pretty_representation(all1[j], true), false);
